@@ -24,7 +24,7 @@ def state_case(rnd, removal=None, max_calls=10, family=None, malformed=0.0, isol
         o = rnd.choice([h for h in hist if h[0] == 'add'])
         hist.append(('add', 0, o[3], o[2], (o[4] or 0) + rnd.randint(0, 2), rnd.choice([None, (o[4] or 0) + 3])))
         classes.append('reciprocal')
-    if rnd.random() < 0.05:
+    if rnd.random() < gen.MANY_RUNS_P:
         # LONG timeline: one pair with 18..45 separate runs of one to three instants (plus what the history had)
         k = rnd.randint(18, 45)
         a, b = rnd.choice([(1, 2), (2, 1), (2, 3)])
